@@ -66,7 +66,7 @@ func c09PrefixFnCase(w *mon.Worker, r *rand.Rand) mon.Result {
 	doc := "{\"a\": {\"b\": 1, \"c\": [5, 6], \"d\": {\"e\": 2}}, \"s\": \"p-q\", \"l\": [\"x\", \"y\"], \"m\": [[1, 2], [3]]}\n"
 	pick := func(p []string) string { return p[r.IntN(len(p))] }
 	var min, full string
-	switch r.IntN(6) {
+	switch r.IntN(8) {
 	case 0:
 		x, k := pick([]string{".a", ".a.d", ".m"}), pick([]string{".b", ".c", ".e", "[0]", "[1]", ".c[0]"})
 		min, full = fmt.Sprintf("del(%s)%s", x, k), fmt.Sprintf("del((%s)%s)", x, k)
@@ -82,9 +82,13 @@ func c09PrefixFnCase(w *mon.Worker, r *rand.Rand) mon.Result {
 	case 4:
 		i := r.IntN(2)
 		min, full = fmt.Sprintf(`.l | contains([["x"], ["q"]])[%d]`, i), fmt.Sprintf(`.l | contains(([["x"], ["q"]])[%d])`, i)
-	default:
+	case 5:
 		x := pick([]string{".a", ".m"})
 		min, full = fmt.Sprintf("del(%s)[0] | length", x), fmt.Sprintf("del((%s)[0]) | length", x)
+	default:
+		// the level form of parent takes a traversal right behind it like the plain form does
+		n, k := 1+r.IntN(2), pick([]string{".b", ".c", `.["d"]`, ".c[0]", " .b"})
+		min, full = fmt.Sprintf(".a.d.e | parent(%d)%s", n, k), fmt.Sprintf(".a.d.e | (parent(%d)) | %s", n, strings.TrimSpace(k))
 	}
 	res := mon.Result{Tags: []string{"family:prefix-function-then-traversal"}, Nontrivial: true}
 	res.Case = map[string]any{"minimal": min, "full": full, "doc": doc}
